@@ -1,5 +1,5 @@
 (* C10 — concurrent requests and block events behave as if executed one at a time.
-   Statements only (proofs: ConcTowerProofs.v, ConcBreach.v, ConcLin.v, ConcReg.v, ConcPurge.v).  Model: ConcTower.v — the thread
+   Statements only (proofs: ConcTowerProofs.v, ConcBreach.v, ConcLin.v, ConcReg.v, ConcPurge.v, ConcCoarse.v, ConcDisc.v, ConcComm.v, ConcRW.v, ConcMix.v, TowerCache.v).  Model: ConcTower.v — the thread
    programs of register / add_appointment / get_appointment / get_subscription_info / block connected / block disconnected at
    lock-acquisition granularity, `run_sched` = all interleavings at EVENT granularity (every lock
    acquisition, release, action under locks and atomic height access is a step of its own).
@@ -7,6 +7,10 @@
    PROVED, for all states, parameters and ALL schedules:
      C10_thread_programs_refine_sequential_model   a program run alone = Tower.step
      C10_no_missed_breach                          add || block with the dispute: accepted => tracker, or row gone, or -27
+     C10_no_missed_breach_refined                  the same with the hypothesis on the locator cache discharged from the C19
+                                                   refinement: cache represents a window (RepW), capacity >= 1, block valid
+     C10_cache_refinement_init, C10_cache_refinement_step   RepW is established by init and kept by every step under the
+                                                   chain discipline: a reachable invariant
      C10_guard_spanning_lookup_and_store_is_necessary   with the cache guard dropped before the store the breach is missed
      C10_tables_are_statement_sequences, C10_no_orphan_records   any number of threads: FK integrity always
      C10_lock_protects_data, C10_slot_rmw_atomic, C10_data_stable_while_locked
@@ -28,14 +32,57 @@
                                                    somebody else poisoned
      C10_add_purge_refused, C10_get_purge_refused  the schedules that used to kill the tower (user purged between
                                                    authentication and charge / expiry test): refused, nothing poisoned
+     C10_writer_among_readers_runs_alone           any number of readers (get_appointment, get_subscription_info) || ONE
+                                                   arbitrary thread (request or block events): that thread's reply and the
+                                                   final state are those of its run alone = of every sequential order
+     C10_get_disconnect_linearizable, C10_getsub_disconnect_linearizable
+                                                   reader || block disconnected: state and BOTH replies of a sequential order
+     C10_reader_against_one_thread                 reader || ANY thread: linearizability reduced to a sequential statement
+                                                   (every mix of the reader's reads over the other thread's solo states
+                                                   answers like the reader before or after it)
+     C10_get_add_off_trigger_linearizable          get_appointment || add_appointment whose locator is not in the cache
+     C10_get_register_linearizable, C10_getsub_register_linearizable
+                                                   reader || register (same or other user): state and BOTH replies of a
+                                                   sequential order
+     C10_register_disconnect_linearizable          register || block disconnected: state and replies of a sequential order
+     C10_coarse_runs_are_fine_runs                 every run_coarse execution (what the controlled scheduler replays) is a
+                                                   run_sched execution: the theorems cover every run of the harness
+     C10_coarse_configs_are_settled, C10_preemption_before_an_action_is_not_coarse
+                                                   the converse fails exactly at preemptions before an action / a release
+                                                   (atomic height accesses): not replayed by the harness - the documented limit
    REFUTED by a witness schedule (each is replayed on the real code by the check):
      C10_single_charge_refuted                     two identical submissions are charged twice
      C10_add_connect_not_linearizable              height stamps of neither order (the three guarantees hold)
+     C10_reader_reply_not_linearizable             get || add with the dispute already in the cache: the reader is told
+                                                   "appointment" (stored, tracker not yet inserted): reply of neither order
+     C10_reader_purge_reply_not_linearizable       get / get_subscription_info || the purging block: "not found" / "no locators"
+                                                   (the reader's sections straddle the purge): reply of neither order
+     C10_reader_add_reply_not_linearizable         get_subscription_info || add of the same user: balance after the charge,
+                                                   locators before the store: reply of neither order
+     C10_register_add_replies_not_linearizable     register || add of the same user: the receipt carries the balance after the
+                                                   renewal and the expiry before it: replies of neither order (state: reg ; add)
+     C10_reader_block_reply_not_linearizable       get || a block without purge (it expires the subscription and carries the
+                                                   dispute): expiry test before, tables after: reply of neither order
+   Hence `get || anything` is settled: state and the other thread's reply always (C10_writer_among_readers_runs_alone);
+   the reader's own reply is that of a sequential order against a disconnection, a registration, readers and - for
+   get_appointment - add_appointment off the trigger path (proved), NOT against add_appointment on the trigger path, the
+   purge, a block that changes two things the reader looks at in different critical sections (height and tables), nor -
+   for get_subscription_info - an add_appointment of the same user (refuted).  What remains OPEN for readers: a block
+   that changes only one of the two (C10_reader_against_one_thread reduces it to the block's solo states).
    OPEN (no proof, no counterexample; the exhaustive controlled exploration of the check finds every final
    state of these pairs equal to a sequential order within its preemption bound, up to the height stamps):
-     register || add, add || add (different appointment), get || register/add/connect
-     without purge, register/add/get || disconnect, register || the watcher's and the responder's part of a block. *)
-From TeosModel Require Import Base TxIndex Tower TowerInv Crash ConcTower ConcTowerProofs ConcBreach ConcLin ConcReg ConcPurge.
+     add || add (different appointment), add || disconnect, register || add of ANOTHER user, register || the watcher's
+     and the responder's part of a block - as far as the final STATE goes; the REPLIES of writer pairs are checked on
+     the real tower by the `linear` monitor (the orders ending in the run's final state must contain one with the run's
+     replies): where a request's critical sections straddle the other thread's write the receipt mixes two orders
+     (known findings `linear:*`, e.g. C10_register_add_replies_not_linearizable).
+   For these pairs "equal to a sequential order" can only hold modulo the ORDER OF ROWS in the gatekeeper's map and the
+   tables (gk_put moves the user to the front, INSERT appends): two threads that write different users / different
+   appointments leave the rows in the order of their critical sections, which need not be the order of either
+   sequential run (the check compares sorted rows).  A proof needs the model's look-ups to be invariant under row
+   permutation first; not attempted here. *)
+From TeosModel Require Import Base TxIndex Tower TowerInv Crash ConcTower ConcTowerProofs ConcBreach ConcLin ConcReg ConcPurge ConcCoarse ConcDisc ConcComm ConcRW ConcMix.
+From TeosModel Require Import TxIndexProofs TowerLive TowerCache.
 From Coq Require Import Permutation.
 From TeosModel.Gen Require Consts.
 Local Open Scope N_scope.
@@ -97,6 +144,45 @@ Proof.
   - intros c H. vm_compute in H. inversion H. subst c. vm_compute. discriminate.
   - vm_compute. split; [reflexivity|discriminate].
 Qed.
+
+(* The same with hypotheses on the reachable state and the chain only: the locator cache (capacity n >= 1) represents a
+   window w of blocks (TxIndexProofs.RepW, the invariant C19 proves of every index built by ti_new and updated under
+   the chain discipline), and the connected block is valid in that window (valid_op: fresh hash, distinct keys, no
+   key of a block still in the window - in particular none of the block that gets evicted). *)
+Theorem C10_no_missed_breach_refined le sc t0 u loc b delay sig hash txs h n w sched tf r :
+  In loc txs ->
+  RepW n (w_cache t0) w -> (0 < n)%nat -> valid_op w (TConnect (cache_block hash txs)) ->
+  run_sched t0 [add_p sc (Some u) loc b delay sig; (connect_p le sc hash txs h ;;; Ret tt) ;;; Ret OBlockRes] sched
+  = (tf, [Some (TOut (OAddRes r)); Some (TOut OBlockRes)]) ->
+  match r with
+  | AddOk _ _ _ _ =>
+      (find_app (db_apps tf) (loc, u) = None \/ find_trk (db_trks tf) (loc, u) <> None) \/
+      (exists p, b_pay b = Some p /\
+                 (snd (script_get sc p) = A_code Consts.RPC_VERIFY_ALREADY_IN_CHAIN \/
+                  aget (car_memo t0) p = Some IrrevocablyResolved))
+  | _ => True
+  end.
+Proof.
+  intros Hin HR Hn Hv. exact (accepted_then_watched_or_gone_refined le sc t0 u loc b txs hash h delay sig n w sched tf r Hin HR Hn Hv).
+Qed.
+
+(* ... and RepW is an invariant of the reachable tower: `init` establishes it (bootstrap blocks with distinct hashes, no
+   locator in two of them) and every step of the sequential tower keeps it as long as the operation it performs on the
+   cache is valid in the window (the chain discipline: TxIndex.valid_op); BigInv / envb: TowerLive's invariant and
+   envelope (C11).  So the hypotheses of C10_no_missed_breach_refined are the reachable invariant + the chain discipline. *)
+Theorem C10_cache_refinement_init c h0 blocks t :
+  init c h0 blocks = Some t ->
+  let l := map (fun b : N * list N => cache_block (fst b) (snd b))
+               (sublist (Z.to_nat Consts.WATCHER_CACHE_FROM) (Z.to_nat Consts.WATCHER_CACHE_TO) blocks) in
+  NoDup (map (@ib_hash N) l) -> NoDup (all_keys (rev l)) ->
+  RepW (length l) (w_cache t) (mk_window (rev l) (Z.of_N h0)).
+Proof. exact (cache_refines_init c h0 blocks t). Qed.
+
+Theorem C10_cache_refinement_step le t o sc n w :
+  BigInv t -> envb t o = true -> RepW n (w_cache t) w ->
+  (forall c, cache_op t o = Some c -> valid_op w c) ->
+  RepW n (w_cache (fst (step le t o sc))) (match cache_op t o with Some c => w_step n w c | None => w end).
+Proof. exact (cache_refines_step le t o sc n w). Qed.
 
 (* ---- no record without its owner ------------------------------------------------------------------
    Any number of threads running thread programs of the quantifier, any schedule, aborts included: the
@@ -302,7 +388,252 @@ Theorem C10_add_purge_refused :
   cf_poisoned c = [] /\ db_apps (cf_tower c) = [] /\ db_users (cf_tower c) = [].
 Proof. exact add_refused_when_purged_in_between. Qed.
 
+(* ---- the two granularities ----------------------------------------------------------------------------------
+   The controlled scheduler of the check replays `run_coarse` words (threads started in index order, then one letter
+   per granted lock request, the thread running on to its next request).  Every such execution is an execution of
+   the fine-grained semantics all the theorems above quantify over: they cover every run the harness can produce. *)
+Theorem C10_coarse_runs_are_fine_runs t ps w c' :
+  run_coarse (start_config t ps) w = Some c' ->
+  exists sched, run_config (init_config t ps) sched = c' /\
+                run_sched t ps sched = (cf_tower c', map thread_result (cf_threads c')).
+Proof. exact (coarse_runs_are_fine_runs t ps w c'). Qed.
+
+(* The converse fails, in this sense: a coarse execution only passes through configurations in which every thread
+   is ended, returning, or waiting for a lock; a fine schedule that stops a thread right before an action - e.g. the
+   atomic store of the gatekeeper's height, which follows the release of `users` - and lets another thread move is
+   not among the words the harness replays (it cannot preempt at an atomic height access). *)
+Theorem C10_coarse_configs_are_settled t ps w c' j th :
+  run_coarse (start_config t ps) w = Some c' -> nth_error (cf_threads c') j = Some th ->
+  match ct_st th with
+  | Running (Ret _) | Running (Acq _ _) | Ended _ => True
+  | Running (Rel _ _) | Running (Act _ _ _) => False
+  end.
+Proof. intros Hw Hn. exact (coarse_configs_are_settled t ps w c' Hw j th Hn). Qed.
+
+Theorem C10_preemption_before_an_action_is_not_coarse t ps sched j th :
+  nth_error (cf_threads (run_config (init_config t ps) sched)) j = Some th -> at_action th = true ->
+  forall w, run_coarse (start_config t ps) w <> Some (run_config (init_config t ps) sched).
+Proof. exact (preemption_before_an_action_is_not_coarse t ps sched j th). Qed.
+
+(* non-vacuity: a coarse word of add || block that runs both to their end; and a fine schedule that stops the block
+   between the release of `users` and the store of the height (3 events) *)
+Example C10_granularity_instances :
+  (match run_coarse (start_config w_reg [w_add; w_connect_dispute]) (repeat 0%nat 9 ++ repeat 1%nat 18) with
+   | Some c => all_finished c | None => false end) = true /\
+  (match nth_error (cf_threads (run_config (init_config w_reg [w_add; w_connect_dispute]) (repeat 1%nat 3))) 1 with
+   | Some th => at_action th | None => false end) = true.
+Proof. vm_compute. split; reflexivity. Qed.
+
+(* ---- a request among readers ------------------------------------------------------------------------------------
+   Any number of read-only requests (get_appointment, get_subscription_info) next to ONE arbitrary thread (a request
+   or the chain monitor delivering block events), any schedule: if that thread returns, its reply and the final
+   state are those of its program run alone from the initial state - i.e. of BOTH sequential orders as far as that
+   thread and the state are concerned, since readers change nothing.  (The readers' own replies: next theorem.) *)
+Theorem C10_writer_among_readers_runs_alone t ps sched j p o :
+  nth_error ps j = Some p ->
+  (forall i q, i <> j -> nth_error ps i = Some q -> readonly q) ->
+  nth_error (snd (run_sched t ps sched)) j = Some (Some (TOut o)) -> (forall s, o <> OAbort s) ->
+  exec p t = Ok o (fst (run_sched t ps sched)).
+Proof. exact (writer_among_readers_runs_alone t ps sched j p o). Qed.
+
+(* ---- a reader and a block disconnection ------------------------------------------------------------------------
+   get_appointment (resp. get_subscription_info)  ||  block `hash` disconnected at height h.  Whatever the schedule,
+   if both return: the block event's reply and the final state are those of its run alone, and the reader is told
+   what it is told when run alone BEFORE the block event (from the initial state) or AFTER it (from the final
+   state): state and replies of a sequential order.  (Of what the reader looks at, the disconnection changes the
+   gatekeeper's height only, by one atomic store, and the reader looks at the height once.) *)
+Theorem C10_get_disconnect_linearizable signer loc hash h t0 sched tf o ow :
+  run_sched t0 [get_p signer loc; (disconnect_p hash h ;;; Ret tt) ;;; Ret OBlockRes] sched
+  = (tf, [Some (TOut o); Some (TOut ow)]) ->
+  (forall s, o <> OAbort s) -> (forall s, ow <> OAbort s) ->
+  exec ((disconnect_p hash h ;;; Ret tt) ;;; Ret OBlockRes) t0 = Ok ow tf /\
+  (exec (get_p signer loc) t0 = Ok o t0 \/ exec (get_p signer loc) tf = Ok o tf).
+Proof.
+  exact (reader_and_height_writer_linearizable t0 (h - 1) (get_p signer loc) _ sched tf o ow (get_hs signer loc) (disconnect_wg hash h)).
+Qed.
+
+Theorem C10_getsub_disconnect_linearizable signer hash h t0 sched tf o ow :
+  run_sched t0 [getsub_p signer; (disconnect_p hash h ;;; Ret tt) ;;; Ret OBlockRes] sched
+  = (tf, [Some (TOut o); Some (TOut ow)]) ->
+  (forall s, o <> OAbort s) -> (forall s, ow <> OAbort s) ->
+  exec ((disconnect_p hash h ;;; Ret tt) ;;; Ret OBlockRes) t0 = Ok ow tf /\
+  (exec (getsub_p signer) t0 = Ok o t0 \/ exec (getsub_p signer) tf = Ok o tf).
+Proof.
+  exact (reader_and_height_writer_linearizable t0 (h - 1) (getsub_p signer) _ sched tf o ow (getsub_hs signer) (disconnect_wg hash h)).
+Qed.
+
+(* the second thread IS the thread program of the block event; and an interleaved run in which both return *)
+Example C10_disconnect_thread_is_prog_of_op :
+  prog_of_op true [] w_trig ODisconnect = (disconnect_p 2001 121 ;;; Ret tt) ;;; Ret OBlockRes /\
+  snd (run_sched w_trig [get_p (Some 1) 7; (disconnect_p 2001 121 ;;; Ret tt) ;;; Ret OBlockRes]
+         (repeat 0%nat 5 ++ repeat 1%nat 4 ++ repeat 0%nat 40 ++ repeat 1%nat 60))
+  = [Some (TOut (OGetRes GetNotFound)); Some (TOut OBlockRes)].
+Proof. split; vm_compute; reflexivity. Qed.
+
+(* ---- a reader and a registration ------------------------------------------------------------------------------
+   get_appointment (resp. get_subscription_info)  ||  register(v), the reader's user the same or another one.  Whatever
+   the schedule, if both return: the registration's receipt and the final state are those of its run alone, and the
+   reader is told what it is told when run alone before the registration (from the initial state) or after it (from
+   the final state).  (The registration writes once; each of the reader's critical sections sees the state before or
+   after that write, and every such mix answers like one of the two pure runs: ConcRW.)
+   For get_subscription_info the subscriptions' expiries are within u32 (every reachable state: TowerLive.ExpInv). *)
+Theorem C10_get_register_linearizable signer loc v t0 sched tf o ow :
+  run_sched t0 [get_p signer loc; register_p v] sched = (tf, [Some (TOut o); Some (TOut ow)]) ->
+  (forall s, o <> OAbort s) -> (forall s, ow <> OAbort s) ->
+  exec (register_p v) t0 = Ok ow tf /\
+  (exec (get_p signer loc) t0 = Ok o t0 \/ exec (get_p signer loc) tf = Ok o tf).
+Proof.
+  exact (reader_and_single_writer_linearizable t0 (get_p signer loc) (register_p v) sched tf o ow
+           (get_readonly signer loc) (register_w1 v) (get_split_good v signer loc t0)).
+Qed.
+
+Theorem C10_getsub_register_linearizable signer v t0 sched tf o ow :
+  (forall u ui, signer = Some u -> gk_get t0 u = Some ui -> u_expiry ui <= U32MAX) ->
+  run_sched t0 [getsub_p signer; register_p v] sched = (tf, [Some (TOut o); Some (TOut ow)]) ->
+  (forall s, o <> OAbort s) -> (forall s, ow <> OAbort s) ->
+  exec (register_p v) t0 = Ok ow tf /\
+  (exec (getsub_p signer) t0 = Ok o t0 \/ exec (getsub_p signer) tf = Ok o tf).
+Proof.
+  intros Hexp. exact (reader_and_single_writer_linearizable t0 (getsub_p signer) (register_p v) sched tf o ow
+           (getsub_readonly signer) (register_w1 v) (fun n => getsub_split_good v signer t0 n Hexp)).
+Qed.
+
+(* non-vacuity: the renewal of user 1 lands between the reader's expiry test and its look at the user's info: the
+   reader is told the renewed subscription (the reply of the order register ; get_subscription_info) *)
+Example C10_reader_register_instances :
+  snd (run_sched w_reg [getsub_p (Some 1); register_p 1] (repeat 0%nat 8 ++ repeat 1%nat 40 ++ repeat 0%nat 40))
+  = [Some (TOut (OSubRes (SubOk 20 920 []))); Some (TOut (ORegisterRes (RegOk 20 120 920)))] /\
+  snd (run_sched w_reg [get_p (Some 1) 7; register_p 1] (repeat 0%nat 5 ++ repeat 1%nat 40 ++ repeat 0%nat 40))
+  = [Some (TOut (OGetRes GetNotFound)); Some (TOut (ORegisterRes (RegOk 20 120 920)))] /\
+  (forall ui, gk_get w_reg 1 = Some ui -> u_expiry ui <= U32MAX).
+Proof.
+  split; [vm_compute; reflexivity|]. split; [vm_compute; reflexivity|].
+  intros ui H. vm_compute in H. inversion H; subst. vm_compute. discriminate.
+Qed.
+
+(* ---- a reader and ONE arbitrary thread: the reduction -------------------------------------------------------------
+   R only reads, W is any thread.  The shared state passes through the states of W's solo run from t0 (`states_of`), in
+   order, and every action of R reads one of them, later actions never an earlier one (`mix`).  If every such mix run
+   of R answers like R on the initial state or on W's final state, then for ALL schedules in which both return:
+   W's reply and the final state are those of W's run alone, and R is told what it is told before or after W. *)
+Theorem C10_reader_against_one_thread t0 PR PW sched tf o ow :
+  readonly PR ->
+  (forall o', mix PR t0 (states_of PW t0) o' ->
+              Some o' = val (exec PR t0) \/ Some o' = val (exec PR (state_of (exec PW t0)))) ->
+  run_sched t0 [PR; PW] sched = (tf, [Some (TOut o); Some (TOut ow)]) ->
+  (forall s, o <> OAbort s) -> (forall s, ow <> OAbort s) ->
+  exec PW t0 = Ok ow tf /\ (exec PR t0 = Ok o t0 \/ exec PR tf = Ok o tf).
+Proof. exact (reader_against_one_thread t0 PR PW sched tf o ow). Qed.
+
+(* get_appointment (any user, any locator)  ||  add_appointment whose locator is NOT in the locator cache (off the
+   trigger path: the appointment is charged and stored, nothing is handed to the responder): state and both replies of
+   a sequential order.  (On the trigger path it is refuted: C10_reader_reply_not_linearizable.) *)
+Theorem C10_get_add_off_trigger_linearizable sc signer' loc' u loc b delay sig t0 sched tf o ow :
+  ti_get (w_cache t0) loc = None ->
+  run_sched t0 [get_p signer' loc'; add_p sc (Some u) loc b delay sig] sched = (tf, [Some (TOut o); Some (TOut ow)]) ->
+  (forall s, o <> OAbort s) -> (forall s, ow <> OAbort s) ->
+  exec (add_p sc (Some u) loc b delay sig) t0 = Ok ow tf /\
+  (exec (get_p signer' loc') t0 = Ok o t0 \/ exec (get_p signer' loc') tf = Ok o tf).
+Proof. exact (get_add_off_trigger_linearizable sc signer' loc' u loc b delay sig t0 sched tf o ow). Qed.
+
+(* non-vacuity: locator 7 is not in the cache of w_reg; the reader looks at the tables between the charge and the store *)
+Example C10_get_add_instance :
+  ti_get (w_cache w_reg) 7 = None /\
+  snd (run_sched w_reg [get_p (Some 1) 7; w_add] (repeat 0%nat 8 ++ repeat 1%nat 21 ++ repeat 0%nat 40 ++ repeat 1%nat 60))
+  = [Some (TOut (OGetRes GetNotFound)); Some (TOut (OAddRes (AddOk 120 1 9 520)))].
+Proof. split; vm_compute; reflexivity. Qed.
+
+(* ---- register and a block disconnection ------------------------------------------------------------------------
+   register(u)  ||  block `hash` disconnected at height h: whatever the schedule, if both return, state and replies are
+   those of a sequential order - the one in which the registration's load of the gatekeeper's height and the
+   disconnection's store of it were executed.  (Everything else the two threads do touches disjoint fields of the tower
+   and commutes: ConcComm.first_actions_decide_the_order.)  No "modulo the stamp" is needed here: the registration
+   reads the height once and the disconnection writes it once. *)
+Theorem C10_register_disconnect_linearizable u hash h t0 sched tf oa ob :
+  run_sched t0 [register_p u; (disconnect_p hash h ;;; Ret tt) ;;; Ret OBlockRes] sched
+  = (tf, [Some (TOut oa); Some (TOut ob)]) ->
+  (forall s, oa <> OAbort s) -> (forall s, ob <> OAbort s) ->
+  (exists ta, exec (register_p u) t0 = Ok oa ta /\ exec ((disconnect_p hash h ;;; Ret tt) ;;; Ret OBlockRes) ta = Ok ob tf) \/
+  (exists tb, exec ((disconnect_p hash h ;;; Ret tt) ;;; Ret OBlockRes) t0 = Ok ob tb /\ exec (register_p u) tb = Ok oa tf).
+Proof. exact (first_actions_decide_the_order t0 _ _ sched tf oa ob (register_disconnect_decided u hash h)). Qed.
+
+(* non-vacuity: a new user registered while block 2001 (height 121) is disconnected: the height is stored before resp.
+   after the registration loads it - subscription start 120 resp. 121, both runs return *)
+Example C10_register_disconnect_instances :
+  let D := (disconnect_p 2001 121 ;;; Ret tt) ;;; Ret OBlockRes in
+  snd (run_sched w_trig [register_p 3; D] (repeat 1%nat 1 ++ repeat 0%nat 40 ++ repeat 1%nat 60))
+  = [Some (TOut (ORegisterRes (RegOk 10 120 520))); Some (TOut OBlockRes)] /\
+  snd (run_sched w_trig [register_p 3; D] (repeat 0%nat 3 ++ repeat 1%nat 1 ++ repeat 0%nat 40 ++ repeat 1%nat 60))
+  = [Some (TOut (ORegisterRes (RegOk 10 121 521))); Some (TOut OBlockRes)].
+Proof. vm_compute. split; reflexivity. Qed.
+
 (* ---- linearizability: what is refuted ----------------------------------------------------------------- *)
+
+(* get_appointment || add_appointment whose dispute is already in the locator cache: the reader is told "appointment"
+   (the row is stored, the responder has not yet been handed the breach), which it is told in neither sequential
+   order (nothing before, the tracker after); the final state is that of the order add ; get.  A reader next to a
+   writer that has several critical sections is NOT linearizable in its own reply. *)
+Theorem C10_reader_reply_not_linearizable :
+  let ps := [w_add; get_p (Some 1) 7] in
+  snd (run_sched w_trig ps w_get_midway) =
+    [Some (TOut (OAddRes (AddOk 121 1 9 520))); Some (TOut (OGetRes (GetApp 7 w_blob 20)))] /\
+  snd (run_sched w_trig ps (in_order [0; 1]%nat)) =
+    [Some (TOut (OAddRes (AddOk 121 1 9 520))); Some (TOut (OGetRes (GetTrk 7 107)))] /\
+  snd (run_sched w_trig ps (in_order [1; 0]%nat)) =
+    [Some (TOut (OAddRes (AddOk 121 1 9 520))); Some (TOut (OGetRes GetNotFound))] /\
+  fst (run_sched w_trig ps w_get_midway) = fst (run_sched w_trig ps (in_order [0; 1]%nat)).
+Proof. exact reader_sees_appointment_before_its_tracker. Qed.
+
+(* a reader || the block that purges its user: the reader's last critical section (the tables) runs after the purge,
+   the earlier ones (authentication, expiry test, the user's info) before it: "not found" / "subscription without
+   locators", told in neither order (before: the appointment / its locator; after: authentication failure) *)
+Theorem C10_reader_purge_reply_not_linearizable :
+  let pg := [get_p (Some 1) 7; w_connect_purge] in
+  let ps := [getsub_p (Some 1); w_connect_purge] in
+  snd (run_sched w_purge pg (w_reader_purged 8)) = [Some (TOut (OGetRes GetNotFound)); Some (TOut OBlockRes)] /\
+  snd (run_sched w_purge pg (in_order [0; 1]%nat)) = [Some (TOut (OGetRes (GetApp 7 w_blob 20))); Some (TOut OBlockRes)] /\
+  snd (run_sched w_purge pg (in_order [1; 0]%nat)) = [Some (TOut (OGetRes GetAuth)); Some (TOut OBlockRes)] /\
+  snd (run_sched w_purge ps (w_reader_purged 11)) = [Some (TOut (OSubRes (SubOk 9 122 []))); Some (TOut OBlockRes)] /\
+  snd (run_sched w_purge ps (in_order [0; 1]%nat)) = [Some (TOut (OSubRes (SubOk 9 122 [7]))); Some (TOut OBlockRes)] /\
+  snd (run_sched w_purge ps (in_order [1; 0]%nat)) = [Some (TOut (OSubRes SubAuth)); Some (TOut OBlockRes)].
+Proof. exact readers_straddle_the_purge. Qed.
+
+(* get_subscription_info || add_appointment of the same user: the reader is told the balance AFTER the charge and the
+   locators BEFORE the store (the charge and the store are two critical sections: the source's own TODO): neither order *)
+Theorem C10_reader_add_reply_not_linearizable :
+  let ps := [w_add; getsub_p (Some 1)] in
+  snd (run_sched w_reg ps w_getsub_midway) =
+    [Some (TOut (OAddRes (AddOk 120 1 9 520))); Some (TOut (OSubRes (SubOk 9 520 [])))] /\
+  snd (run_sched w_reg ps (in_order [0; 1]%nat)) =
+    [Some (TOut (OAddRes (AddOk 120 1 9 520))); Some (TOut (OSubRes (SubOk 9 520 [7])))] /\
+  snd (run_sched w_reg ps (in_order [1; 0]%nat)) =
+    [Some (TOut (OAddRes (AddOk 120 1 9 520))); Some (TOut (OSubRes (SubOk 10 520 [])))].
+Proof. exact reader_sees_the_charge_before_the_appointment. Qed.
+
+(* get_appointment || a block WITHOUT purge: the block at whose height the reader's subscription expires, carrying the
+   dispute of its appointment.  The expiry test is passed before the gatekeeper's part of the block, the tables are read
+   after the watcher's: "tracker" - before the block the reader is told the appointment, after it "subscription expired" *)
+Theorem C10_reader_block_reply_not_linearizable :
+  let ps := [get_p (Some 1) 7; w_connect_expiry_dispute] in
+  snd (run_sched w_exp ps w_get_across_block) = [Some (TOut (OGetRes (GetTrk 7 107))); Some (TOut OBlockRes)] /\
+  snd (run_sched w_exp ps (in_order [0; 1]%nat)) = [Some (TOut (OGetRes (GetApp 7 w_blob 20))); Some (TOut OBlockRes)] /\
+  snd (run_sched w_exp ps (in_order [1; 0]%nat)) = [Some (TOut (OGetRes (GetExpired 122))); Some (TOut OBlockRes)].
+Proof. exact reader_straddles_the_expiring_block. Qed.
+
+(* register || add_appointment of the same user (one of the pairs that were open): the add_appointment receipt carries the
+   balance AFTER the renewal and the expiry BEFORE it (the expiry is read in has_subscription_expired, the balance written
+   in add_update_appointment: two critical sections of `users`): the replies of neither order, the state of register ; add *)
+Theorem C10_register_add_replies_not_linearizable :
+  let ps := [register_p 1; w_add] in
+  snd (run_sched w_reg ps w_add_across_renewal) =
+    [Some (TOut (ORegisterRes (RegOk 20 120 920))); Some (TOut (OAddRes (AddOk 120 1 19 520)))] /\
+  snd (run_sched w_reg ps (in_order [0; 1]%nat)) =
+    [Some (TOut (ORegisterRes (RegOk 20 120 920))); Some (TOut (OAddRes (AddOk 120 1 19 920)))] /\
+  snd (run_sched w_reg ps (in_order [1; 0]%nat)) =
+    [Some (TOut (ORegisterRes (RegOk 19 120 920))); Some (TOut (OAddRes (AddOk 120 1 9 520)))] /\
+  gk_users (fst (run_sched w_reg ps w_add_across_renewal)) = gk_users (fst (run_sched w_reg ps (in_order [0; 1]%nat))) /\
+  db_apps (fst (run_sched w_reg ps w_add_across_renewal)) = db_apps (fst (run_sched w_reg ps (in_order [0; 1]%nat))).
+Proof. exact receipt_mixes_the_renewal. Qed.
 
 (* add_appointment || the block with its dispute is NOT linearizable in the height stamps (start_block 120
    next to a tracker stamped 121; the orders give 120/120 and 121/121) — while C10_no_missed_breach holds *)
@@ -334,3 +665,44 @@ Print Assumptions C10_get_never_aborts.
 Print Assumptions C10_get_purge_refused.
 Print Assumptions C10_add_purge_refused.
 Print Assumptions C10_add_connect_not_linearizable.
+Print Assumptions C10_coarse_runs_are_fine_runs.
+Print Assumptions C10_coarse_configs_are_settled.
+Print Assumptions C10_preemption_before_an_action_is_not_coarse.
+Print Assumptions C10_writer_among_readers_runs_alone.
+Print Assumptions C10_reader_reply_not_linearizable.
+Print Assumptions C10_reader_purge_reply_not_linearizable.
+Print Assumptions C10_reader_add_reply_not_linearizable.
+Print Assumptions C10_reader_block_reply_not_linearizable.
+Print Assumptions C10_register_add_replies_not_linearizable.
+Print Assumptions C10_no_missed_breach_refined.
+Print Assumptions C10_cache_refinement_init.
+Print Assumptions C10_cache_refinement_step.
+Print Assumptions C10_get_disconnect_linearizable.
+Print Assumptions C10_getsub_disconnect_linearizable.
+Print Assumptions C10_register_disconnect_linearizable.
+Print Assumptions C10_get_register_linearizable.
+Print Assumptions C10_getsub_register_linearizable.
+Print Assumptions C10_reader_against_one_thread.
+Print Assumptions C10_get_add_off_trigger_linearizable.
+
+(* non-vacuity of the refined hypotheses: the locator cache of the reachable state w_reg represents a window (it was
+   built by ti_new from the bootstrap blocks), its capacity is positive, and block 2001 carrying locator 7 is valid *)
+Example C10_no_missed_breach_refined_instance :
+  exists n w, RepW n (w_cache w_reg) w /\ (0 < n)%nat /\ valid_op w (TConnect (cache_block 2001 [7])) /\ In 7 [7].
+Proof.
+  set (l := map (fun b : N * list N => cache_block (fst b) (snd b))
+                (sublist (Z.to_nat Consts.WATCHER_CACHE_FROM) (Z.to_nat Consts.WATCHER_CACHE_TO) w_blocks)).
+  assert (Hh : NoDup (map (@ib_hash N) l)) by (vm_compute; repeat (constructor; [cbn; intuition discriminate|]); constructor).
+
+  assert (Hk : NoDup (all_keys (rev l))) by (vm_compute; constructor).
+
+  destruct (new_refines l 120%Z Hh Hk) as [t [Ht HR]].
+  assert (E : ti_new l 120%Z = Some (w_cache w_reg)) by (vm_compute; reflexivity).
+
+  assert (Et : Some t = Some (w_cache w_reg)) by (rewrite <- Ht; exact E).
+ assert (Et' : t = w_cache w_reg) by (apply (f_equal (fun o => match o with Some x => x | None => t end)) in Et; exact Et). rewrite Et' in HR.
+  exists (length l), (mk_window (rev l) 120%Z). split; [exact HR|]. split; [vm_compute; lia|].
+  split; [|left; reflexivity].
+  cbn [valid_op]. (split; [vm_compute; intuition discriminate|]). (split; [vm_compute; repeat constructor; intros []|]).
+  intros k Hk'. vm_compute. intros [].
+Qed.
